@@ -27,7 +27,10 @@ fn schedule_case(ctx: &WorkerCtx, rep: &mut WorkerReport, case_seed: u64, blocks
     let (net, _) = net_for_shard(ctx.shard);
     let mut rng = crate::rng::Rng::new(case_seed);
     let mut w = World::new(case_seed, rpc::chain_id_for(net));
-    let scale = scale_world(&mut w, case_seed, true, ctx.thorough());
+    // chains of 65 000+ blocks cost a gigabyte per uncommitted twin: one worker in eight draws them,
+    // and such a case runs under three schedules instead of six
+    let scale = scale_world(&mut w, case_seed, true, ctx.thorough() && ctx.shard % 8 == 5);
+    let deep = scale == "base-65530" || scale == "gap-65536";
     rep.set_add("scale_profiles", scale);
     w.profile.p_empty_block = 10;
     w.profile.max_txs_per_block = 6;
@@ -52,7 +55,9 @@ fn schedule_case(ctx: &WorkerCtx, rep: &mut WorkerReport, case_seed: u64, blocks
     let u = universe(&[&p.log], p.height.max(0) as u64, Some(&w));
     drop_driver(p);
 
-    let policies = if ctx.thorough() {
+    let policies = if deep {
+        vec![CommitPolicy::Never, CommitPolicy::Every, CommitPolicy::Random(40)]
+    } else if ctx.thorough() {
         vec![CommitPolicy::Never, CommitPolicy::Every, CommitPolicy::EveryK(2), CommitPolicy::EveryK(3), CommitPolicy::Random(30), CommitPolicy::Random(60)]
     } else {
         vec![CommitPolicy::Never, CommitPolicy::Every, CommitPolicy::EveryK(3), CommitPolicy::Random(40)]
@@ -157,7 +162,7 @@ fn discard_case(ctx: &WorkerCtx, rep: &mut WorkerReport, case_seed: u64) {
     let (net, _) = net_for_shard(ctx.shard);
     let mut rng = crate::rng::Rng::new(case_seed ^ 0xD15C);
     let mut w = World::new(case_seed, rpc::chain_id_for(net));
-    let scale = scale_world(&mut w, case_seed, true, ctx.thorough());
+    let scale = scale_world(&mut w, case_seed, true, ctx.thorough() && ctx.shard % 4 == 1);
     rep.set_add("scale_profiles", scale);
     w.profile.p_empty_block = 10;
     let mut a = new_driver("C03");
@@ -286,7 +291,10 @@ pub fn worker(ctx: &WorkerCtx) -> WorkerReport {
     crate::setup_env(net, traces);
     let mut rep = WorkerReport::default();
     let mut rng = ctx.rng();
-    let (n_sched, n_discard, blocks) = if ctx.thorough() { (6, 16, 14) } else { (1, 4, 8) };
+    let (mut n_sched, n_discard, blocks) = if ctx.thorough() { (6, 16, 14) } else { (1, 4, 8) };
+    if ctx.thorough() && ctx.shard % 8 == 5 {
+        n_sched = 3; // the workers that may draw 65 000-block chains
+    }
     for _ in 0..n_sched {
         let cs = rng.next();
         schedule_case(ctx, &mut rep, cs, blocks);
